@@ -976,16 +976,26 @@ spifconf_parse_line(FILE * fp, spif_charptr_t buff)
               }
               strcpy((char *) fname, "Eterm-preproc-");
               fd = spiftool_temp_file(fname, PATH_MAX);
-              outfile = (spif_charptr_t) STRDUP(fname);
-              snprintf((char *) cmd, PATH_MAX, "%s < %s > %s",
-                       spiftool_get_pword(2, buff), file_peek_path(), fname);
-              system((char *) cmd);
-              fp = fdopen(fd, "rt");
-              if (fp) {
-                  fclose(file_peek_fp());
-                  file_poke_fp(fp);
-                  file_poke_preproc(1);
-                  file_poke_outfile(outfile);
+              if (fd < 0) {
+                  /* No temporary file, nothing to preprocess into:  carry on with the file as it is. */
+                  libast_print_error("Parsing file %s, line %lu:  Unable to create a temporary file for %%preproc -- %s\n",
+                                     file_peek_path(), file_peek_line(), strerror(errno));
+              } else {
+                  outfile = (spif_charptr_t) STRDUP(fname);
+                  snprintf((char *) cmd, PATH_MAX, "%s < %s > %s",
+                           spiftool_get_pword(2, buff), file_peek_path(), fname);
+                  system((char *) cmd);
+                  fp = fdopen(fd, "rt");
+                  if (fp) {
+                      fclose(file_peek_fp());
+                      file_poke_fp(fp);
+                      file_poke_preproc(1);
+                      file_poke_outfile(outfile);
+                  } else {
+                      close(fd);
+                      remove((char *) fname);
+                      FREE(outfile);
+                  }
               }
           } else {
               if (file_peek_skip()) {
